@@ -180,3 +180,175 @@ Proof.
     + left. exact Hp.
     + rewrite <- app_assoc. exact Hp.
 Qed.
+
+(* ---------- (ii) where the scanner model puts the begin and the end of a scalar ---------- *)
+Local Open Scope Z_scope.
+Definition topb (c : jcfg) : Z := match jstack c with (_, b0) :: _ => b0 | [] => -1 end.
+Definition is_close (t : lext) : bool := match t with LiteralEnd | ObjectKeyEnd => true | _ => false end.
+Definition mark_ok (a : astate) (c : jcfg) (x : lexeme) : Prop :=
+  is_close (ltype x) = true -> lit_open a = true /\ snd (fst x) = topb c /\ snd x = jindex c - 1 /\
+                               (ltype x = ObjectKeyEnd -> exists K, a = AEndKey K) /\
+                               (ltype x = LiteralEnd -> (exists K, a = AEnd K true) \/ exists sub K, a = ANum sub K /\ num_complete sub = true).
+
+Ltac marks_fin :=
+  eexists; eexists; split; [reflexivity|]; split;
+  [ unfold topb; cbn; intros; try discriminate; try reflexivity; try lia
+  | repeat (apply Forall_cons;
+            [ unfold mark_ok, topb, ltype; cbn; intros; try discriminate; repeat split; try reflexivity; try lia;
+              try (intros; discriminate); eauto
+            |]); apply Forall_nil ].
+
+Lemma step_marks al a c b a' : abs al a c -> next a (jcls_of b) = Some a' ->
+  exists c' lx, jfeed c b = Ok (c', lx) /\
+                (lit_open a' = true -> topb c' = if lit_open a then topb c else jindex c) /\
+                Forall (mark_ok a c) lx.
+Proof.
+  intros Ha Hn. unfold jfeed.
+  destruct Ha as [i|K st b0 i Hs|K st b0 i Hs|K st b0 i Hs|K st b0 i Hs|K st b0 i Hs|K st b0 i Hs|K st b0 i Hs|K st b0 i Hs
+                  |K st b0 i Hs|K st i Hs|K st b0 b2 i Hs|i|sub p st b0 b2 i stp Hs Hstp|sub K st b0 i Hs|stp rest K st b0 i Hs Hkw];
+    cbn [jstp jret jstack jindex junf jallow].
+  - cbn [next] in Hn. destruct (jcls_of b); cbn in Hn; inversion Hn; subst; cbn; marks_fin.
+  - cbn [next] in Hn. destruct (jcls_of b); cbn in Hn; inversion Hn; subst; cbn; marks_fin.
+  - cbn [next] in Hn. destruct (jcls_of b); cbn in Hn; inversion Hn; subst; cbn; marks_fin.
+  - cbn [next after] in Hn. destruct (jcls_of b); cbn in Hn; inversion Hn; subst; cbn; marks_fin.
+  - cbn [next] in Hn. destruct (jcls_of b); cbn in Hn; inversion Hn; subst; cbn; marks_fin.
+  - cbn [next] in Hn. destruct (jcls_of b); cbn in Hn; inversion Hn; subst; cbn; marks_fin.
+  - cbn [next after_key_next] in Hn. destruct (jcls_of b); cbn in Hn; inversion Hn; subst; cbn; marks_fin.
+  - cbn [next] in Hn. destruct (jcls_of b); cbn in Hn; inversion Hn; subst; cbn; marks_fin.
+  - cbn [next after] in Hn. destruct (jcls_of b); cbn in Hn; inversion Hn; subst; cbn; marks_fin.
+  - cbn [next] in Hn. destruct Hs; cbn [after] in Hn; destruct (jcls_of b); cbn in Hn; inversion Hn; subst; cbn; marks_fin.
+  - cbn [next] in Hn. destruct Hs; cbn [after] in Hn; destruct (jcls_of b); cbn in Hn; inversion Hn; subst; cbn; marks_fin.
+  - cbn [next after_key_next] in Hn. destruct (jcls_of b); cbn in Hn; inversion Hn; subst; cbn; marks_fin.
+  - cbn [next after] in Hn. destruct (jcls_of b); cbn in Hn; inversion Hn; subst; cbn; marks_fin.
+  - cbn [next] in Hn.
+    destruct sub as [| |n]; [| |destruct n as [|[|[|[|[|n]]]]]]; cbn in Hstp; inversion Hstp; subst stp;
+      destruct p as [K|K]; cbn [pos_ctx pos_stack pos_unf str_ret] in *;
+      destruct (jcls_of b); cbn in Hn; inversion Hn; subst; cbn; marks_fin.
+  - cbn [next] in Hn.
+    destruct sub; cbn [num_next] in Hn; destruct Hs; cbn [after] in Hn; destruct (jcls_of b); cbn in Hn; inversion Hn; subst; cbn; marks_fin.
+  - cbn [next] in Hn.
+    destruct stp; cbn in Hkw; inversion Hkw; subst rest; destruct (jcls_of b); cbn in Hn; inversion Hn; subst; cbn; marks_fin.
+Qed.
+
+(* ---------- the two halves joined over the run ---------- *)
+Definition slice (s : bytes) (b e1 : Z) : bytes := firstn (Z.to_nat (e1 - b)) (skipn (Z.to_nat b) s).
+Lemma slice_mid (p0 g r : bytes) : slice (p0 ++ g ++ r) (Z.of_nat (length p0)) (Z.of_nat (length p0) + Z.of_nat (length g)) = g.
+Proof.
+  unfold slice. rewrite Nat2Z.id. replace (Z.of_nat (length p0) + Z.of_nat (length g) - Z.of_nat (length p0)) with (Z.of_nat (length g)) by lia.
+  rewrite Nat2Z.id. rewrite skipn_app, skipn_all, Nat.sub_diag. cbn [skipn app].
+  rewrite firstn_app, firstn_all, Nat.sub_diag. cbn [firstn]. apply app_nil_r.
+Qed.
+
+(* what a closing lexeme must span, read off the whole text *)
+Definition lex_lit (s : bytes) (x : lexeme) : Prop :=
+  match ltype x with
+  | LiteralEnd => JScalar (slice s (snd (fst x)) (snd x + 1))
+  | ObjectKeyEnd => JString (slice s (snd (fst x)) (snd x + 1))
+  | _ => True
+  end.
+
+(* pre: the bytes consumed so far; when a scalar is open, its bytes g are the end of pre and its begin is on the stack *)
+Definition ginv (a : astate) (c : jcfg) (pre : bytes) : Prop :=
+  jindex c = Z.of_nat (length pre) /\
+  (lit_open a = true -> exists p0 g, pre = p0 ++ g /\ topb c = Z.of_nat (length p0) /\ PreA a g).
+
+Lemma closing_span a c pre rest x : ginv a c pre -> mark_ok a c x -> lex_lit (pre ++ rest) x.
+Proof.
+  intros [Hi Hg] Hm. unfold lex_lit. unfold mark_ok in Hm.
+  destruct (ltype x) eqn:Et; try exact I.
+  - destruct (Hm eq_refl) as (Ho & Hb & He & _ & Hl). destruct (Hg Ho) as (p0 & g & -> & Htop & Hp).
+    rewrite Hb, He, Htop, Hi. rewrite app_length, Nat2Z.inj_add.
+    replace (Z.of_nat (length p0) + Z.of_nat (length g) - 1 + 1) with (Z.of_nat (length p0) + Z.of_nat (length g)) by lia.
+    rewrite <- app_assoc, slice_mid.
+    destruct (Hl eq_refl) as [(K & ->)|(sub & K & -> & Hc)]; cbn [PreA] in Hp; [exact Hp|].
+    right; left. rewrite <- (app_nil_r g). apply Hp. apply nr_done; exact Hc.
+  - destruct (Hm eq_refl) as (Ho & Hb & He & Hk & _). destruct (Hg Ho) as (p0 & g & -> & Htop & Hp).
+    rewrite Hb, He, Htop, Hi. rewrite app_length, Nat2Z.inj_add.
+    replace (Z.of_nat (length p0) + Z.of_nat (length g) - 1 + 1) with (Z.of_nat (length p0) + Z.of_nat (length g)) by lia.
+    rewrite <- app_assoc, slice_mid.
+    destruct (Hk eq_refl) as (K & ->). exact Hp.
+Qed.
+
+Lemma pre_closed a g : lit_open a = false -> PreA a g.
+Proof.
+  destruct a as [| | | | | | | | |K lit| | |sub p|sub K|rest K]; cbn; intros H; try discriminate; auto.
+  destruct lit; [discriminate|exact I].
+Qed.
+
+Lemma step_ginv al a c b a' c' lx pre : abs al a c -> next a (jcls_of b) = Some a' -> byte b -> jfeed c b = Ok (c', lx) ->
+  ginv a c pre -> ginv a' c' (pre ++ [b]) /\ forall rest, Forall (lex_lit (pre ++ rest)) lx.
+Proof.
+  intros Ha Hn Hb Hf Hg.
+  destruct (step_marks al a c b a' Ha Hn) as (c1 & lx1 & Hf1 & Htop & Hm). rewrite Hf in Hf1. inversion Hf1; subst c1 lx1. clear Hf1.
+  split.
+  - destruct Hg as [Hi Hg]. split.
+    + rewrite (feed_index _ _ _ _ Hf), Hi, app_length, Nat2Z.inj_add. reflexivity.
+    + intros Ho'. specialize (Htop Ho'). destruct (lit_open a) eqn:Ho.
+      * destruct (Hg eq_refl) as (p0 & g & -> & Ht & Hp). exists p0, (g ++ [b]). split; [rewrite app_assoc; reflexivity|].
+        split; [rewrite Htop; exact Ht|]. pose proof (pre_step a b a' g Hb Hn Hp) as H. rewrite Ho in H. exact H.
+      * exists pre, [b]. split; [reflexivity|]. split; [rewrite Htop; exact Hi|].
+        pose proof (pre_step a b a' [] Hb Hn (pre_closed a [] Ho)) as H. rewrite Ho in H. exact H.
+  - intros rest. eapply Forall_impl; [|exact Hm]. intros x Hx. eapply closing_span; eassumption.
+Qed.
+
+Lemma run_lit al : forall s a c a' pre, all_bytes s -> abs al a c -> ginv a c pre -> nexts a s = Some a' ->
+  exists c' lx, abs al a' c' /\ ginv a' c' (pre ++ s) /\ (forall r acc, jrun c (s ++ r) acc = jrun c' r (acc ++ lx)) /\
+                forall r, Forall (lex_lit (pre ++ s ++ r)) lx.
+Proof.
+  induction s as [|b s IH]; intros a c a' pre Hb Ha Hg Hn.
+  - cbn [nexts] in Hn. inversion Hn; subst a'. exists c, []. split; [exact Ha|]. split; [rewrite app_nil_r; exact Hg|]. split; [|intros; constructor].
+    intros r acc. rewrite app_nil_r. reflexivity.
+  - ab. cbn [nexts] in Hn. destruct (next a (jcls_of b)) as [a1|] eqn:E; [|discriminate].
+    destruct (sim_step al a c b a1 Ha E) as (c1 & lx1 & Hf & Het & Ha1 & _).
+    destruct (step_ginv al a c b a1 c1 lx1 pre Ha E ltac:(assumption) Hf Hg) as [Hg1 Hl1].
+    destruct (IH a1 c1 a' (pre ++ [b]) ltac:(assumption) Ha1 Hg1 Hn) as (c' & lx & Ha' & Hg' & Hrun & Hl).
+    exists c', (lx1 ++ lx). split; [exact Ha'|]. split; [rewrite <- app_assoc in Hg'; exact Hg'|]. split.
+    + intros r acc. cbn [app jrun]. rewrite Hf. fold (has_end_top lx1). rewrite Het. rewrite Hrun, app_assoc. reflexivity.
+    + intros r. apply Forall_app. split; [apply Hl1|]. specialize (Hl r). rewrite <- app_assoc in Hl. exact Hl.
+Qed.
+
+(* end of input right after the value: the scalar still open is closed with the same begin and end = the last byte *)
+Lemma eof_after_value_top al a c acc : abs al a c -> Done a [] ->
+  (a = AEnd [] false /\ jrun c [] acc = (Ok acc, jindex c)) \/
+  (jrun c [] acc = (Ok (acc ++ [(LiteralEnd, topb c, jindex c - 1)]), jindex c) /\
+   ((exists K, a = AEnd K true) \/ exists sub K, a = ANum sub K /\ num_complete sub = true)).
+Proof.
+  intros Ha Hd. inversion Hd as [K lit|sub K Hc]; subst; inversion Ha; subst;
+    repeat match goal with H : shape [] _ |- _ => apply shape_nil_inv in H; subst end.
+  - right. split; [|left; eexists; reflexivity]. unfold topb. cbn. replace (i + 1 - 1) with i by lia. reflexivity.
+  - left. split; [reflexivity|]. cbn. rewrite app_nil_r. reflexivity.
+  - right. split; [|right; eexists; eexists; split; [reflexivity|exact Hc]].
+    unfold topb. cbn [jrun jstack jindex junf]. unfold num_unf. rewrite Hc. cbn. reflexivity.
+Qed.
+
+(* C12: in the stream of an accepted document every literal lexeme spans exactly a JSON scalar and every key lexeme
+   exactly a JSON string *)
+Theorem accepted_literals s i : all_bytes s -> jcheck false s = (Ok tt, i) ->
+  exists ls j, jlexemes false s = (Ok ls, j) /\ Forall (lex_lit s) ls.
+Proof.
+  intros Hb Hc. destruct (check_sound s i Hb Hc) as (w1 & v & w2 & -> & H1 & Hv & H2).
+  assert (Hb' := Hb). apply all_bytes_app in Hb'. destruct Hb' as [Hbw Hb']. apply all_bytes_app in Hb'. destruct Hb' as [Hbv Hbw2].
+  destruct grammar_run as (GV & _ & _).
+  pose proof (vs_ws ARoot [] w1 vs_root Hbw H1) as S1.
+  destruct (value_then_ws ARoot [] v w2 (GV v Hv) Hbv Hbw2 H2 vs_root) as (a2 & S2 & D2).
+  assert (S : nexts ARoot (w1 ++ v ++ w2) = Some a2) by (rewrite (nexts_app _ _ _ _ S1); exact S2).
+  assert (Hg0 : ginv ARoot (jcfg0 false) []) by (split; [reflexivity|cbn; discriminate]).
+  destruct (run_lit false _ ARoot (jcfg0 false) a2 [] Hb (abs_root false 0) Hg0 S) as (c' & lx & Ha' & Hg' & Hrun & Hl).
+  cbn [app] in Hg', Hl. specialize (Hl []). rewrite app_nil_r in Hl.
+  unfold jlexemes. specialize (Hrun [] []). rewrite app_nil_r in Hrun. rewrite Hrun. cbn [app].
+  destruct D2 as [D|D].
+  - destruct (eof_after_value_top false a2 c' lx Ha' D) as [[_ Hr]|[Hr Hshape]]; rewrite Hr; eexists; eexists; (split; [reflexivity|]); [exact Hl|].
+    apply Forall_app. split; [exact Hl|]. constructor; [|constructor].
+    rewrite <- (app_nil_r (w1 ++ v ++ w2)). apply (closing_span a2 c'); [exact Hg'|].
+    unfold mark_ok, ltype. cbn [fst snd]. intros _. split.
+    { destruct Hshape as [(K & ->)|(sub & K & -> & _)]; reflexivity. }
+    split; [reflexivity|]. split; [reflexivity|]. split; [intros X; discriminate X|]. intros _. exact Hshape.
+  - subst a2. rewrite (eof_top false c' lx Ha'). eexists; eexists; split; [reflexivity|exact Hl].
+Qed.
+
+(* not vacuous: the stream of {"k": [-1.5e3, "a\n", null]} *)
+Example literal_spans_example :
+  let s := [123; 34; 107; 34; 58; 32; 91; 45; 49; 46; 53; 101; 51; 44; 32; 34; 97; 92; 110; 34; 44; 32; 110; 117; 108; 108; 93; 125]%N in
+  map (fun x : lexeme => (snd (fst x), snd x)) (filter (fun x => is_close (ltype x)) (match fst (jlexemes false s) with Ok ls => ls | _ => [] end))
+  = [(1, 3); (7, 12); (15, 19); (22, 25)].
+Proof. vm_compute. reflexivity. Qed.
